@@ -3,6 +3,7 @@ package c09
 
 import (
 	"encoding/json"
+	"github.com/ovn-org/libovsdb/model"
 
 	"github.com/ovn-org/libovsdb/mapper"
 	"github.com/ovn-org/libovsdb/ovsdb"
@@ -510,4 +511,65 @@ func VerifC09Mismatch() {
 		rt.Reach("checked")
 		rt.Assert(err != nil, "C09: OvsToNative of a string into an integer column is rejected")
 	}
+}
+
+// ---- enum columns of every atomic type ----
+
+const schemaEnums = `{"name":"V","version":"1.0.0","tables":{
+ "E":{"isRoot":true,"columns":{
+   "ei":{"type":{"key":{"type":"integer","enum":["set",[1,2,3]]}}},
+   "er":{"type":{"key":{"type":"real","enum":["set",[0.5,1.5]]}}},
+   "eb":{"type":{"key":{"type":"boolean","enum":["set",[true,false]]}}},
+   "es":{"type":{"key":{"type":"string","enum":["set",["a","b"]]}}},
+   "sei":{"type":{"key":{"type":"integer","enum":["set",[1,2,3]]},"min":0,"max":"unlimited"}},
+   "oei":{"type":{"key":{"type":"integer","enum":["set",[1,2,3]]},"min":0,"max":1}}
+ }}}}`
+
+type enumRow struct {
+	UUID string  `ovsdb:"_uuid"`
+	EI   int     `ovsdb:"ei"`
+	ER   float64 `ovsdb:"er"`
+	EB   bool    `ovsdb:"eb"`
+	ES   string  `ovsdb:"es"`
+	SEI  []int   `ovsdb:"sei"`
+	OEI  *int    `ovsdb:"oei"`
+}
+
+// VerifC09Enums: a model whose enum columns hold members of their enums (integer, real, boolean, string; single,
+// optional and multi-valued) survives model -> row -> JSON -> row -> model.
+func VerifC09Enums() {
+	cm, err := model.NewClientDBModel("V", map[string]model.Model{"E": &enumRow{}})
+	rt.Assert(err == nil, "C09: client model for the enum schema")
+	dbm, errs := model.NewDatabaseModel(fix.MustSchema(schemaEnums), cm)
+	rt.Assert(len(errs) == 0, "C09: the model validates against the enum schema")
+	src := &enumRow{UUID: fix.U1, EI: 1 + rt.Choose(3), ER: []float64{0.5, 1.5}[rt.Choose(2)], EB: rt.Choose(2) == 1, ES: []string{"a", "b"}[rt.Choose(2)]}
+	switch rt.Choose(3) {
+	case 1:
+		src.SEI = []int{2}
+	case 2:
+		src.SEI = []int{1, 3}
+	}
+	if rt.Choose(2) == 1 {
+		v := 1 + rt.Choose(3)
+		src.OEI = &v
+	}
+	info, err := dbm.NewModelInfo(src)
+	rt.Assert(err == nil, "C09: model info for a model of the database model")
+	row, err := dbm.Mapper.NewRow(info)
+	rt.Assert(err == nil, "C09: a model holding enum members converts to a row")
+	data, err := json.Marshal(row)
+	rt.Assert(err == nil, "C09: the row encodes")
+	var back ovsdb.Row
+	rt.Assert(json.Unmarshal(data, &back) == nil, "C09: the row decodes")
+	dst := &enumRow{}
+	dinfo, _ := dbm.NewModelInfo(dst)
+	err = dbm.Mapper.GetRowData(&back, dinfo)
+	rt.Reach("mapped-back")
+	rt.Assert(err == nil, "C09: the decoded row maps back into a model")
+	same := dst.EI == src.EI && dst.ER == src.ER && dst.EB == src.EB && dst.ES == src.ES && len(dst.SEI) == len(src.SEI) &&
+		((dst.OEI == nil && src.OEI == nil) || (dst.OEI != nil && src.OEI != nil && *dst.OEI == *src.OEI))
+	for i := range src.SEI {
+		same = same && i < len(dst.SEI) && dst.SEI[i] == src.SEI[i]
+	}
+	rt.Assert(same, "C09: model -> row -> JSON -> row -> model preserves enum columns of every atomic type")
 }
